@@ -9,6 +9,9 @@
     rogw/tranp/implements/cpp/transpiler/py2cpp.py:416-425          make_lambda_binds: the names of the remaining variables as the
         keys of a dict (first occurrence kept, order of first reference); the type test in between (classes and functions are
         not captured) does not look at names and is applied by the harness before the op is sent.
+    rogw/tranp/semantics/reflection/helper/template.py:124-131,187-195   Function.templates / Method.templates: the type variables
+        of the parameters and the return type as the keys of a dict (first use first), a method without those of its class
+        (`symbol not in ignore_templates`) — the same two steps as a capture list: `templatesOf`.
   Names are an abstract type: the code compares WHOLE names (`not in` on a list of names, dict keys).
 -/
 import Tranp.Str
@@ -30,7 +33,23 @@ def dictKeys : List N → List N
 /-- `make_lambda_binds` on names -/
 def binds (params refs : List N) : List N := dictKeys (refVars params refs)
 
+/-- `Function.templates` (`klass = []`) / `Method.templates`: type variables in order of first use, without those of the class -/
+def templatesOf (klass used : List N) : List N := binds klass used
+
 end
+
+/-- lexicographic `<=` on names (code points), the order of `sorted(key=domain_name)` -/
+def nameLe : Str → Str → Bool
+  | [], _ => true
+  | _ :: _, [] => false
+  | a :: as, b :: bs => a.toNat < b.toNat || (a = b && nameLe as bs)
+
+def insertByName (x : Str) : List Str → List Str
+  | [] => [x]
+  | y :: ys => if nameLe x y then x :: y :: ys else y :: insertByName x ys
+
+/-- REGRESSION (seeded mutation): the type variables of a method ordered by NAME instead of first use -/
+def templatesSorted (klass used : List Str) : List Str := (binds klass used).foldr insertByName []
 
 /-- REGRESSION (seeded mutation): the parameters removed with `startswith(tuple of parameter names)` -/
 def refVarsBroken (params refs : List Str) : List Str := refs.filter (fun v => !params.any (fun p => Str.startsWith v p))
